@@ -863,3 +863,126 @@ func checkNoTypedNilExchanger(c *Ctx) {
 		c.anchorMissing("functions returning a ReservedExchanger built from a pointer")
 	}
 }
+
+// ctxResultSelects: every blocking select of the module that has a case on a context's Done channel and a receive from
+// a channel that carries a value (element type other than struct{}): the population of the D22 family.
+type ctxResultSelect struct {
+	fn    *ssa.Function
+	sel   *ssa.Select
+	polls bool   // the ctx case looks into the result channel before every exit
+	elem  string // element type of the result channel
+}
+
+func ctxResultSelects(p *Prog) []ctxResultSelect {
+	var out []ctxResultSelect
+	for _, f := range p.Funcs {
+		if !inMosdns(f) {
+			continue
+		}
+		fn := f
+		eachInstr(f, func(in ssa.Instruction) {
+			sel, ok := in.(*ssa.Select)
+			if !ok || !sel.Blocking {
+				return
+			}
+			var resultChans []ssa.Value
+			hasDone := false
+			elem := ""
+			for _, st := range sel.States {
+				if st.Dir != types.RecvOnly {
+					continue
+				}
+				if cl, ok := st.Chan.(*ssa.Call); ok && cl.Call.IsInvoke() && cl.Call.Method.Name() == "Done" {
+					hasDone = true
+					continue
+				}
+				ch, ok := st.Chan.Type().Underlying().(*types.Chan)
+				if !ok {
+					continue
+				}
+				if stt, isS := ch.Elem().Underlying().(*types.Struct); isS && stt.NumFields() == 0 {
+					continue // a pure signal
+				}
+				if n, isN := ch.Elem().(*types.Named); isN && n.Obj().Pkg() != nil && n.Obj().Pkg().Path() == "time" && n.Obj().Name() == "Time" {
+					continue // timer / ticker channel
+				}
+				resultChans = append(resultChans, st.Chan)
+				elem = ch.Elem().String()
+			}
+			if !hasDone || len(resultChans) == 0 {
+				return
+			}
+			cases, _, okD := decodeSelect(sel)
+			polls := okD
+			if okD {
+				isPoll := func(x ssa.Instruction) bool {
+					// the poll as a NEW helper of its own (`pollResp(respChan, id)`: one non-blocking receive)
+					if cl, ok := x.(*ssa.Call); ok {
+						if hc, sum := pollHelperCall(cl); hc != nil && sum.chanIdx >= 0 && sum.chanIdx < len(hc.Call.Args) {
+							a := stripChanConv(hc.Call.Args[sum.chanIdx])
+							for _, rc := range resultChans {
+								if a == rc || sameLoadedPlace(a, rc) {
+									return true
+								}
+							}
+						}
+					}
+					s2, ok := x.(*ssa.Select)
+					if !ok || s2.Blocking {
+						return false
+					}
+					for _, st := range s2.States {
+						if st.Dir != types.RecvOnly {
+							continue
+						}
+						for _, rc := range resultChans {
+							if st.Chan == rc || sameLoadedPlace(st.Chan, rc) {
+								return true
+							}
+						}
+					}
+					return false
+				}
+				for _, cs := range cases {
+					cl, ok := cs.State.Chan.(*ssa.Call)
+					if !ok || !cl.Call.IsInvoke() || cl.Call.Method.Name() != "Done" || cs.Body == nil {
+						continue
+					}
+					if _, leak := reachFromBlock(cs.Body, isExit, isPoll); leak {
+						polls = false
+					}
+				}
+			}
+			out = append(out, ctxResultSelect{fn, sel, polls, elem})
+		})
+	}
+	return out
+}
+
+// checkCtxResultSelectsPoll (C02-R14): the D22 family as a rule over the whole module instead of a list of functions.
+// Five siblings (D22, D46, D47, D49, D52) were found one audit at a time, each in a function the rule of the day did not
+// name. Every blocking select that waits for a context and for a value-carrying channel polls that channel in its
+// ctx.Done() case — or is listed here with the reason why a value lost to the coin toss is not a lost reply.
+var ctxResultSelectExempt = map[string]string{
+	"(*pkg/upstream/transport.ReuseConnTransport).getNewConn": "the value is a dialled connection, not a reply: the dial goroutine keeps a connection nobody took (it pools or closes it, C07-R11 / C09-R9)",
+	"(*pkg/upstream/bootstrap.Bootstrap).resolve":             "the value is the bootstrap lookup's address: losing it fails one dial, which the transports report or retry (no property is anchored in the bootstrap resolver's wait)",
+	"(*plugin/executable/dual_selector.Selector).Exec":        "the value is the sub-query's error status, the reply itself is taken from the sub-query's context afterwards; the selector is outside the anchors of C02 / C14 / C20",
+}
+
+func checkCtxResultSelectsPoll(c *Ctx) {
+	n := 0
+	for _, s := range ctxResultSelects(c.P) {
+		n++
+		name := funcName(s.fn)
+		key := "ctx-result-select-polls@" + name
+		if why, ok := ctxResultSelectExempt[name]; ok {
+			c.ok(key, instrPos(s.sel), "exempt: %s", why)
+			continue
+		}
+		c.check(s.polls, key, instrPos(s.sel), "the ctx.Done() case looks into the "+shortName(s.elem)+" channel before it gives up",
+			"a wait for {ctx.Done(), a "+shortName(s.elem)+" result} whose ctx case does not poll the result: when both are ready the result that arrived in time is dropped in about half of the calls (the D22 / D46 / D47 / D49 / D52 family; list the function in ctxResultSelectExempt only with a reason why the value is not a reply)")
+	}
+	if n == 0 {
+		c.anchorMissing("selects on a context and a result channel")
+	}
+}
